@@ -483,6 +483,13 @@ def do_write(spec: dict, b: Built, path: str, scratch: str, data='__auto__', **o
         kwargs['from_idx'] = w['from_idx']
     if w.get('to_idx') is not None:
         kwargs['to_idx'] = w['to_idx']
+    if w.get('idx_as'):
+        # the window bounds as numpy integers (of possibly different widths), e.g. the results of numpy computations
+        fa, ta = w['idx_as']
+        if fa and 'from_idx' in kwargs:
+            kwargs['from_idx'] = np.dtype(fa).type(kwargs['from_idx'])
+        if ta and 'to_idx' in kwargs:
+            kwargs['to_idx'] = np.dtype(ta).type(kwargs['to_idx'])
     try:
         if isinstance(data, str) and data == '__auto__':
             data = make_write_data(spec, b, scratch)
